@@ -16,8 +16,10 @@ Two switches describe the two places where the code as found departs from the pr
   (`sNodes`: `Circuit.s_nodes` = io_nodes + kinds containing "dff" ignoring case + kinds containing "latch")
 * `InvMode.first`     : `scan_inversions[port] = mvarray(vector)[0]` (one flag for the whole chain).
 
+A third switch (audit finding 2, fix D36): `LookMode.role` (repaired `_maps`: ports are looked up among `io_nodes` first, scan
+cells among the state elements first) / `LookMode.last` (as found: one dictionary, last position of a name).
 Domain (guards under which the real code does not raise and NumPy does not broadcast):
-names in `interface` are unique (they are keys of `Circuit.cells`); scan-in/scan-out port names are
+names in `interface` need NOT be unique (bench-style circuits: output port fork `q` and flip-flop `q`); scan-in/scan-out port names are
 pairwise distinct; every load/unload/`_pi`/`_po` string has exactly as many characters as its chain has
 cells / its group has signals (a one-character string would be broadcast by NumPy: outside the model, the
 model reports `shape`); dictionaries are given as item lists with unique keys. -/
@@ -140,12 +142,17 @@ def Circ.upperDffIntf (c : Circ) : List String :=
 
 inductive IntfMode | sNodes | upperDff deriving DecidableEq, Repr
 inductive InvMode | full | first deriving DecidableEq, Repr
+/-- how a NAME is turned into a row (audit finding 2, fix D36): `role` — repaired `_maps`: a `_pi`/`_po` member is looked up among
+the ports (`io_nodes`) first, a scan cell among the state elements first; `last` — `_maps` as found: one dictionary over the whole
+interface, the LAST position with that name wins (a bench-style output port `q` and the flip-flop `q = DFF(..)` share a name) -/
+inductive LookMode | role | last deriving DecidableEq, Repr
 structure Mode where
   intf : IntfMode
   inv : InvMode
+  look : LookMode := .role
 deriving DecidableEq, Repr
-def Mode.spec : Mode := ⟨.sNodes, .full⟩
-def Mode.legacy : Mode := ⟨.upperDff, .first⟩
+def Mode.spec : Mode := ⟨.sNodes, .full, .role⟩
+def Mode.legacy : Mode := ⟨.upperDff, .first, .last⟩
 
 def Circ.intf (c : Circ) : IntfMode → List String
   | .sNodes => c.sNodes
@@ -199,9 +206,30 @@ def invVec (m : InvMode) (v : List Bool) : List Bool :=
 
 def group (f : File) (g : String) : List String := (f.groups.lookup g).getD []
 
-def chainMap (mode : Mode) (intf : List String) (ch : Chain) : ChainMap :=
+/-- Python `dict((n.name, i) for i, n in enumerate(l))[n]`: the LAST position of the name -/
+def lastIdx (l : List String) (n : String) : Nat := l.length - 1 - l.reverse.idxOf n
+
+/-- row of a port name (`_pi` / `_po` member): among the first `nio` interface entries (the ports) if there is one, else among the
+state elements (`port_pos[n] if n in port_pos else cell_pos[n]`) -/
+def portPos (nio : Nat) (intf : List String) (n : String) : Nat :=
+  if (intf.take nio).contains n then lastIdx (intf.take nio) n else nio + lastIdx (intf.drop nio) n
+
+/-- row of a scan cell: among the state elements if there is one, else among the ports -/
+def cellPos (nio : Nat) (intf : List String) (n : String) : Nat :=
+  if (intf.drop nio).contains n then nio + lastIdx (intf.drop nio) n else lastIdx (intf.take nio) n
+
+def portLook (mode : Mode) (nio : Nat) (intf : List String) (n : String) : Nat :=
+  match mode.look with | .role => portPos nio intf n | .last => lastIdx intf n
+def cellLook (mode : Mode) (nio : Nat) (intf : List String) (n : String) : Nat :=
+  match mode.look with | .role => cellPos nio intf n | .last => lastIdx intf n
+
+/-- the row of scan cell `x` / of port `x` in property mode -/
+def Circ.cellRow (c : Circ) (x : String) : Nat := cellPos c.io.length c.sNodes x
+def Circ.portRow (c : Circ) (x : String) : Nat := portPos c.io.length c.sNodes x
+
+def chainMap (mode : Mode) (nio : Nat) (intf : List String) (ch : Chain) : ChainMap :=
   { si := ch.si, so := ch.so,
-    map := (scanNames ch.mid).map fun n => intf.idxOf n,
+    map := (scanNames ch.mid).map fun n => cellLook mode nio intf n,
     inInv := invVec mode.inv (scanInInv ch.mid),
     outInv := invVec mode.inv (scanOutInv ch.mid) }
 
@@ -209,9 +237,9 @@ def chainMap (mode : Mode) (intf : List String) (ch : Chain) : ChainMap :=
 def mapsPure (mode : Mode) (c : Circ) (f : File) : Maps :=
   let intf := c.intf mode.intf
   { n := intf.length,
-    pi := (group f "_pi").map fun n => intf.idxOf n,
-    po := (group f "_po").map fun n => intf.idxOf n,
-    chains := f.chains.map (chainMap mode intf) }
+    pi := (group f "_pi").map fun n => portLook mode c.io.length intf n,
+    po := (group f "_po").map fun n => portLook mode c.io.length intf n,
+    chains := f.chains.map (chainMap mode c.io.length intf) }
 
 def keyErr (intf : List String) (names : List String) : Option Err :=
   if names.all fun n => intf.contains n then none else some .key
